@@ -98,6 +98,54 @@ func c02(c *Ctx) {
 	}
 	fold := folds[0]
 	foldV := g.VertexOf(fold)
+	// the server the entries are folded into is made for this snapshot: a server kept from the previous snapshot (to save the
+	// Unmarshal of the base state) has not seen what a Restore in between installed, and a live one is the wrong thing to fold
+	// into altogether
+	if len(fold.Args) >= 2 {
+		if sid, ok := ast.Unparen(fold.Args[1]).(*ast.Ident); ok {
+			// every value the variable can hold is a server made here (through copies of locals — a helper that builds the base
+			// state was expanded — and nil on an error path)
+			fresh, nDef := true, 0
+			seenV := map[types.Object]bool{}
+			var made func(e ast.Expr, depth int) bool
+			made = func(e ast.Expr, depth int) bool {
+				if e == nil || isNilIdent(info, e) {
+					return true
+				}
+				switch x := ast.Unparen(e).(type) {
+				case *ast.CallExpr:
+					if fn := astx.Callee(info, x); fn != nil && isFunc(fn, "ircserver", "NewIRCServer") {
+						nDef++
+						return true
+					}
+					return false
+				case *ast.Ident:
+					o := astx.Obj(info, x)
+					if o == nil || depth > 4 {
+						return false
+					}
+					if seenV[o] {
+						return true
+					}
+					seenV[o] = true
+					if v, isVar := o.(*types.Var); !isVar || v.IsField() || !(snap.Body().Pos() <= v.Pos() && v.Pos() <= snap.Body().End()) {
+						return false
+					}
+					ds := defsOf(info, snap.Node(), o)
+					for _, d := range ds {
+						if d != nil && !made(d, depth+1) {
+							return false
+						}
+					}
+					return true
+				}
+				return false
+			}
+			fresh = made(sid, 0)
+			r.Check(fresh && nDef > 0, "C02.N1", name, "folds into a fresh server", c.P.Pos(fold.Pos()), "every definition of "+sid.Name+" is ircserver.NewIRCServer(…)",
+				"the server that the compacted entries are folded into is not created for this snapshot (it is taken from a field or kept between calls): after a Restore, or after a snapshot that failed half-way, it no longer is the state at the base index and the filed snapshot state is wrong")
+		}
+	}
 	// the loop containing the fold
 	var loop *ast.ForStmt
 	ast.Inspect(snap.Body(), func(n ast.Node) bool {
@@ -218,12 +266,13 @@ func c02(c *Ctx) {
 		var hv []*cfgx.Edge
 		for _, v := range g.V {
 			for _, e := range v.Succ {
-				if e.Cond != nil && e.Tag == nil && !e.Val && isHorizon(e.Cond) {
-					hv = append(hv, e)
-				}
-				if e.Cond != nil && e.Tag == nil && e.Val {
-					if u, ok := ast.Unparen(e.Cond).(*ast.UnaryExpr); ok && u.Op == token.NOT && isHorizon(u.X) {
-						hv = append(hv, e)
+				// the edge on which "newer than the horizon" is false, however the test is negated or wrapped
+				if e.Cond != nil && e.Tag == nil {
+					for _, f := range e.Facts() {
+						if f.Tag == nil && !f.Val && isHorizon(f.Expr) {
+							hv = append(hv, e)
+							break
+						}
 					}
 				}
 			}
@@ -707,6 +756,33 @@ func (c *Ctx) c02Restore() {
 			return containsCall(info, v, func(fn *types.Func, _ *ast.CallExpr) bool { return isFunc(fn, pkg, nm) })
 		}
 	}
+	// a constructor is known by what it makes, not by its name: an exported function of the package whose first result is a
+	// pointer to the type (NewOutputStream, a NewOutputStreamWithOptions next to it)
+	ctorType := map[string]string{"NewLevelDBStore": "LevelDBStore", "NewIRCServer": "IRCServer", "NewOutputStream": "OutputStream"}
+	callNamedExact := callNamed
+	callNamed = func(pkg, nm string) func(v *cfgx.Vertex) bool {
+		typ, isCtor := ctorType[nm]
+		if !isCtor {
+			return callNamedExact(pkg, nm)
+		}
+		return func(v *cfgx.Vertex) bool {
+			return containsCall(info, v, func(fn *types.Func, _ *ast.CallExpr) bool {
+				if fn.Pkg() == nil || load.ShortPkg(fn.Pkg().Path()) != pkg || !fn.Exported() {
+					return false
+				}
+				sig := fn.Type().(*types.Signature)
+				if sig.Recv() != nil || sig.Results().Len() == 0 {
+					return false
+				}
+				pt, isPtr := sig.Results().At(0).Type().(*types.Pointer)
+				if !isPtr {
+					return false
+				}
+				n := astx.NamedOf(pt.Elem())
+				return n != nil && n.Obj().Name() == typ && n.Obj().Pkg() == fn.Pkg()
+			})
+		}
+	}
 	assignsGlobalFrom := func(global string, pkg, nm string) func(v *cfgx.Vertex) bool {
 		return func(v *cfgx.Vertex) bool {
 			as, ok := v.Node.(*ast.AssignStmt)
@@ -931,6 +1007,11 @@ func (c *Ctx) c02Stream(snap *load.FuncInfo) {
 	if ps == nil || dp == nil || wl == nil {
 		return
 	}
+	// the function that writes the protobuf stream: Persist itself, or the private function of the package it hands the sink
+	// to (Persist kept as a wrapper that counts, times or picks the encoding)
+	ps = c.delegate(ps, func(f *load.FuncInfo) bool {
+		return len(callsIn(f, func(fn *types.Func, _ *ast.CallExpr) bool { return fn == wl.Obj })) > 0
+	})
 	pi, di, wi := ps.Info(), dp.Info(), wl.Info()
 	endian := func(info *types.Info, body ast.Node, method string) (string, bool) {
 		found := ""
@@ -1221,6 +1302,45 @@ func (c *Ctx) c02BaseState(snap *load.FuncInfo, lss *types.Var) {
 					}
 				}
 			}
+		}
+	}
+	// the first index that selects the base state is the one the store reported: nothing else is assigned to the variable (an
+	// "empty store" special case that sets it to 1 makes the look-up below find no state, and an empty server is filed as
+	// the newest snapshot)
+	if firstObj != nil {
+		// where the selection compares a key with it
+		selV := -1
+		ast.Inspect(snap.Body(), func(n ast.Node) bool {
+			be, ok := n.(*ast.BinaryExpr)
+			if !ok || selV >= 0 {
+				return true
+			}
+			isFirst := func(e ast.Expr) bool {
+				id, ok := ast.Unparen(e).(*ast.Ident)
+				return ok && astx.Obj(info, id) == firstObj
+			}
+			if (be.Op == token.LSS && isFirst(be.Y)) || (be.Op == token.GTR && isFirst(be.X)) {
+				selV = g.VertexOf(be)
+			}
+			return true
+		})
+		for _, d := range defsOf(info, snap.Node(), firstObj) {
+			if d == nil {
+				continue
+			}
+			// only definitions that can reach the selection (the fold loop re-uses the variable afterwards)
+			if dv := g.VertexOf(d); selV >= 0 && dv >= 0 && !g.Reach(dv, nil, nil)[selV] {
+				continue
+			}
+			call, isCall := ast.Unparen(d).(*ast.CallExpr)
+			fromStore := false
+			if isCall {
+				if fn := astx.Callee(info, call); fn != nil && fname(fn) == "FirstIndex" {
+					fromStore = true
+				}
+			}
+			r.Check(fromStore, "C02.N2", name, "the first retained index is what the store reports", c.P.Pos(d.Pos()), "defined by ircstore.FirstIndex() only",
+				"the variable that selects the base state (key < first) is also assigned "+astx.Str(d)+": for that value the look-up finds an older state or none at all, the fold starts from the wrong base and the snapshot loses what was compacted before")
 		}
 	}
 	for _, call := range callsIn(snap, func(fn *types.Func, _ *ast.CallExpr) bool { return isFunc(fn, "ircserver", "(*IRCServer).Unmarshal") }) {
